@@ -6,4 +6,6 @@ CLAIMED = {
 }
 CLAIMED["C11"] = {"ref": "3.11", "text": "Bounded model checking of gr_count_unicode_characters and the _utf_codec<8/16/32> get/put/validate code from the real IR on exact-size heap buffers (UTF-8 0..6 bytes, UTF-16 0..4 units, UTF-32 0..3 units; thorough 8/5/3), all contents, with and without buffer_end, against reference decoders written from Unicode Table 3-7; single-step decode/resync lemma and put/get identity over all scalar values.",
          "note": BASE_NOTE + " Encoded surrogate code points in UTF-8/UTF-32 are left unclassified. Segment-level encoding equivalence is decided under C05."}
+CLAIMED["C14"] = {"ref": "3.14", "text": "Bounded model checking of lz4::decompress from the real IR on exact-size in/out heap buffers (quick: in 13..15 x out up to 17; thorough: in 13..16 x out up to 25), all input bytes symbolic: memory safety by cbmc's pointer checks, soundness (accepted => byte-identical to a byte-wise reference LZ4 block decoder) and completeness (every block valid by the LZ4 end-of-block rules that fills the announced size and shrinks the data is accepted).",
+         "note": BASE_NOTE + " Reference decoder is 25 lines in harness/C14_lz4.cpp. Table-level wrapper (Face::Table::decompress) is covered under C16/C01 when built."}
 NOT_APPLICABLE = {}
